@@ -17,7 +17,6 @@ let print_collected = function
   | Offered l -> "OK " ^ print_paths l
   | Raised -> "RAISED"
   | DequeMutated -> "DEQUE"
-  | Hangs -> "HANG"
 
 let next_common st =
   let base = next_str st in
